@@ -539,7 +539,7 @@ class PixelAlgorithms(AccessorBase):
                 output_core_dims=[["time"]],
                 keep_attrs=True,
                 dask="parallelized",
-                dask_gufunc_kwargs={"meta": self._obj.data.astype(dtype)},
+                dask_gufunc_kwargs={"meta": self._obj.data.astype("int16")},
             )
 
         else:
@@ -577,8 +577,12 @@ class PixelAlgorithms(AccessorBase):
                 output_core_dims=[["time"]],
                 keep_attrs=True,
                 dask="parallelized",
-                dask_gufunc_kwargs={"meta": self._obj.data.astype(dtype)},
+                dask_gufunc_kwargs={"meta": self._obj.data.astype("int16")},
             )
+
+        # the kernels produce int16: declare that to dask and convert afterwards,
+        # so that in-memory and dask-backed results agree on the requested dtype
+        res = res.astype(dtype, copy=False)
 
         res.attrs.update(
             {
@@ -742,7 +746,8 @@ class PixelAlgorithms(AccessorBase):
             output_core_dims=[["time"]],
             keep_attrs=True,
             dask="parallelized",
-            dask_gufunc_kwargs={"meta": self._obj.data},
+            # the kernel produces float32 whatever the input dtype
+            dask_gufunc_kwargs={"meta": self._obj.data.astype("float32")},
         )
 
 
@@ -774,8 +779,11 @@ class RollingWindowAlgos(AccessorBase):
             output_core_dims=[[dimension]],
             keep_attrs=True,
             dask="parallelized",
-            dask_gufunc_kwargs={"meta": self._obj.astype(dtype).data},
+            dask_gufunc_kwargs={"meta": self._obj.astype("float32").data},
         )
+        # the kernel produces float32: declare that to dask and convert afterwards,
+        # so that in-memory and dask-backed results agree on the requested dtype
+        xx = xx.astype(dtype, copy=False)
         xx = xx[..., window_size - 1 :]
         return xx
 
